@@ -115,7 +115,15 @@ class TaskTimeout(Exception):
     pass
 
 
+_TIMED_OUT = [False]
+
+
 def _alarm(signum, frame):
+    # sticky flag: the exception may be swallowed by code under test (`except Exception`, asyncio callback handlers); whatever the task
+    # reports after its time limit has fired is discarded and replaced by "undecided" (never a violation)
+    _TIMED_OUT[0] = True
+    import signal
+    signal.alarm(20)          # keep interrupting until the task function has returned
     raise TaskTimeout()
 
 
@@ -127,11 +135,14 @@ def _run_task(task):
     modname, fname, args = task
     t0 = time.time()
     try:
+        _TIMED_OUT[0] = False
         signal.signal(signal.SIGALRM, _alarm); signal.alarm(TASK_LIMIT_S)
         import importlib
         mod = importlib.import_module(modname)
         obs = getattr(mod, fname)(*args)
         signal.alarm(0)
+        if _TIMED_OUT[0]:
+            raise TaskTimeout()
         if os.environ.get('VERIF_VERBOSE'):
             print(f'  task {fname}{str(args)[:100]} {time.time() - t0:.1f}s {[o.status for o in obs if o.status != "discharged"][:3]}', flush=True)
         return obs
